@@ -269,3 +269,447 @@ Section General.
     rewrite (Hi Hlt) in H. discriminate H.
   Qed.
 End General.
+
+(* ====================================================================================== *)
+(* The honest server over a growing chain satisfies the oracle assumptions.                *)
+(* ====================================================================================== *)
+Ltac Zify.zify_post_hook ::= Z.div_mod_to_equations.
+
+Lemma zparity_nat : forall p, Z.odd (Z.of_nat p) = Nat.odd p /\ Z.even (Z.of_nat p) = Nat.even p.
+Proof.
+  induction p as [|p [IH1 IH2]]; [split; reflexivity|].
+  rewrite Nat2Z.inj_succ, Z.odd_succ, Z.even_succ, Nat.odd_succ, Nat.even_succ. split; assumption.
+Qed.
+
+Lemma nth_error_firstn_some : forall (A : Type) (l : list A) n k x,
+    nth_error (firstn n l) k = Some x -> nth_error l k = Some x.
+Proof.
+  intros A l. induction l as [|a l IH]; intros n k x H.
+  - rewrite firstn_nil in H. destruct k; discriminate H.
+  - destruct n as [|n]; [destruct k; discriminate H|].
+    destruct k as [|k]; cbn [firstn nth_error] in *; [exact H | eapply IH; exact H].
+Qed.
+
+Section HonestProofs.
+  Variable sha256 : bytes -> bytes.
+  Hypothesis Hsha : forall b, length (sha256 b) = 32%nat.
+
+  Notation node := (node sha256).
+  Notation pair_up := (pair_up sha256).
+  Notation root_f := (root_f sha256).
+  Notation branch_f := (branch_f sha256).
+  Notation merkle_fold := (merkle_fold sha256).
+  Notation merkle_step := (merkle_step sha256).
+
+  Definition len32 (b : bytes) : Prop := length b = 32%nat.
+
+  Lemma node_len : forall a b, len32 (node a b).
+  Proof. intros a b. unfold len32, C31.node, sha256d. apply Hsha. Qed.
+
+  (* ---------- the Merkle tree ---------- *)
+  Lemma pair_up_length : forall n l, (length l <= n)%nat -> length (pair_up l) = Nat.div2 (S (length l)).
+  Proof.
+    induction n as [|n IH]; intros l Hl.
+    - destruct l; [reflexivity | cbn [length] in Hl; lia].
+    - destruct l as [|a [|b t]]; [reflexivity | reflexivity |].
+      cbn [C31.pair_up length]. rewrite (IH t) by (cbn [length] in Hl; lia). reflexivity.
+  Qed.
+
+  Lemma pair_up_len32 : forall n l, (length l <= n)%nat -> Forall len32 (pair_up l).
+  Proof.
+    induction n as [|n IH]; intros l Hl.
+    - destruct l; [constructor | cbn [length] in Hl; lia].
+    - destruct l as [|a [|b t]]; [constructor | constructor; [apply node_len | constructor] |].
+      cbn [C31.pair_up]. constructor; [apply node_len|]. apply IH. cbn [length] in Hl. lia.
+  Qed.
+
+  Lemma sibling_SS : forall p a b t, sibling (S (S p)) (a :: b :: t) = sibling p t.
+  Proof.
+    intros p a b t. unfold sibling. rewrite Nat.even_succ_succ.
+    destruct (Nat.even p) eqn:E.
+    - replace (S (S p) + 1)%nat with (S (S (p + 1))) by lia. reflexivity.
+    - destruct p as [|p]; [discriminate E|].
+      replace (S (S (S p)) - 1)%nat with (S (S p)) by lia.
+      replace (S p - 1)%nat with p by lia. reflexivity.
+  Qed.
+
+  Lemma pair_up_nth : forall n l p,
+      (length l <= n)%nat -> (p < length l)%nat ->
+      nth (Nat.div2 p) (pair_up l) [] = merkle_step (nth p l []) (sibling p l) (Z.of_nat p).
+  Proof.
+    induction n as [|n IH]; intros l p Hl Hp; [lia|].
+    destruct l as [|a [|b t]]; [cbn [length] in Hp; lia | |].
+    - cbn [length] in Hp. assert (p = 0)%nat by lia. subst p. reflexivity.
+    - destruct p as [|[|p]]; [reflexivity | reflexivity |].
+      cbn [Nat.div2 C31.pair_up]. cbn [nth]. rewrite sibling_SS.
+      rewrite (IH t p) by (cbn [length] in *; lia).
+      unfold C31.merkle_step.
+      destruct (zparity_nat (S (S p))) as [E1 _]. destruct (zparity_nat p) as [E2 _].
+      rewrite E1, E2, Nat.odd_succ_succ. reflexivity.
+  Qed.
+
+  Lemma sibling_In : forall p l, (p < length l)%nat -> In (sibling p l) l.
+  Proof.
+    intros p l Hp. unfold sibling. destruct (Nat.even p) eqn:E.
+    - destruct (Nat.lt_ge_cases (p + 1) (length l)) as [H | H].
+      + apply nth_In. exact H.
+      + rewrite nth_overflow by exact H. apply nth_In. exact Hp.
+    - apply nth_In. lia.
+  Qed.
+
+  Lemma div2_lt : forall p n, (p < n)%nat -> (Nat.div2 p < Nat.div2 (S n))%nat.
+  Proof.
+    intros p n H. pose proof (Nat.div2_odd p) as A. pose proof (Nat.div2_odd (S n)) as B.
+    destruct (Nat.odd p); destruct (Nat.odd (S n)); cbn [Nat.b2n] in *; lia.
+  Qed.
+
+  Lemma div2_S_lt : forall n, (2 <= n)%nat -> (Nat.div2 (S n) < n)%nat.
+  Proof.
+    intros n H. pose proof (Nat.div2_odd (S n)) as B.
+    destruct (Nat.odd (S n)); cbn [Nat.b2n] in *; lia.
+  Qed.
+
+  Lemma branch_fold : forall fuel (l : list bytes) p,
+      (p < length l)%nat -> (length l <= fuel)%nat ->
+      merkle_fold (nth p l []) (branch_f fuel p l) (Z.of_nat p) = (root_f fuel l, 0%Z).
+  Proof.
+    induction fuel as [|fuel IH]; intros l p Hp Hl; [lia|].
+    destruct l as [|a [|b t]]; [cbn [length] in Hp; lia | |].
+    - cbn [length] in Hp. assert (p = 0)%nat by lia. subst p. reflexivity.
+    - set (l := a :: b :: t) in *.
+      change (branch_f (S fuel) p l) with (sibling p l :: branch_f fuel (Nat.div2 p) (pair_up l)).
+      change (root_f (S fuel) l) with (root_f fuel (pair_up l)).
+      cbn [C31.merkle_fold].
+      rewrite <- (pair_up_nth (length l) l p (le_n _) Hp).
+      replace (Z.of_nat p / 2)%Z with (Z.of_nat (Nat.div2 p))
+        by (rewrite Nat.div2_div, Nat2Z.inj_div; reflexivity).
+      assert (Hlen : length (pair_up l) = Nat.div2 (S (length l))) by (apply (pair_up_length (length l)); lia).
+      assert (2 <= length l)%nat by (unfold l; cbn [length]; lia).
+      apply IH.
+      + rewrite Hlen. apply div2_lt. exact Hp.
+      + rewrite Hlen. pose proof (div2_S_lt (length l) ltac:(assumption)). lia.
+  Qed.
+
+  Lemma branch_f_length : forall fuel l p q, length (branch_f fuel p l) = length (branch_f fuel q l).
+  Proof.
+    induction fuel as [|fuel IH]; intros l p q.
+    - destruct l as [|a [|b t]]; reflexivity.
+    - destruct l as [|a [|b t]]; [reflexivity | reflexivity |].
+      set (l := a :: b :: t).
+      change (branch_f (S fuel) p l) with (sibling p l :: branch_f fuel (Nat.div2 p) (pair_up l)).
+      change (branch_f (S fuel) q l) with (sibling q l :: branch_f fuel (Nat.div2 q) (pair_up l)).
+      cbn [length]. f_equal. apply IH.
+  Qed.
+
+  Lemma branch_f_len32 : forall fuel l p,
+      Forall len32 l -> (p < length l)%nat -> Forall len32 (branch_f fuel p l).
+  Proof.
+    induction fuel as [|fuel IH]; intros l p HF Hp.
+    - destruct l as [|a [|b t]]; constructor.
+    - destruct l as [|a [|b t]]; [constructor | constructor |].
+      set (l := a :: b :: t) in *.
+      change (branch_f (S fuel) p l) with (sibling p l :: branch_f fuel (Nat.div2 p) (pair_up l)).
+      constructor.
+      + rewrite Forall_forall in HF. apply HF. apply sibling_In. exact Hp.
+      + apply IH; [apply (pair_up_len32 (length l)); lia|].
+        rewrite (pair_up_length (length l)) by lia. apply div2_lt. exact Hp.
+  Qed.
+
+  Lemma root_f_len32 : forall fuel l,
+      Forall len32 l -> l <> [] -> (length l <= fuel)%nat -> len32 (root_f fuel l).
+  Proof.
+    induction fuel as [|fuel IH]; intros l HF Hne Hl.
+    - destruct l; [contradiction | cbn [length] in Hl; lia].
+    - destruct l as [|a [|b t]]; [contradiction | inversion HF; assumption |].
+      set (l := a :: b :: t) in *.
+      change (root_f (S fuel) l) with (root_f fuel (pair_up l)).
+      assert (Hlen : length (pair_up l) = Nat.div2 (S (length l))) by (apply (pair_up_length (length l)); lia).
+      assert (2 <= length l)%nat by (unfold l; cbn [length]; lia).
+      apply IH.
+      + apply (pair_up_len32 (length l)). lia.
+      + unfold l. cbn [C31.pair_up]. discriminate.
+      + rewrite Hlen. pose proof (div2_S_lt (length l) ltac:(assumption)). lia.
+  Qed.
+
+  (* ---------- index_of / find_tx ---------- *)
+  Lemma index_of_spec : forall x (l : list bytes) p,
+      index_of x l = Some p -> (p < length l)%nat /\ nth p l [] = x /\ nth_error l p = Some x.
+  Proof.
+    intros x l. induction l as [|y l IH]; intros p H; [discriminate H|].
+    cbn [index_of] in H. destruct (bytes_eqb x y) eqn:E.
+    - injection H as <-. apply bytes_eqb_eq in E. subst y. cbn [length nth nth_error]. repeat split. lia.
+    - destruct (index_of x l) as [q|] eqn:Hq; [|discriminate H]. cbn [option_map] in H. injection H as <-.
+      destruct (IH q eq_refl) as (A & B & C). cbn [length nth nth_error]. repeat split; [lia | exact B | exact C].
+  Qed.
+
+  Lemma index_of_head : forall x l p, nth_error l 0 = Some x -> index_of x l = Some p -> p = 0%nat.
+  Proof.
+    intros x [|y l] p H1 H2; [discriminate H1|]. cbn [nth_error] in H1. injection H1 as ->.
+    cbn [index_of] in H2. rewrite bytes_eqb_refl in H2. injection H2 as <-. reflexivity.
+  Qed.
+
+  Lemma find_tx_spec : forall x c h p,
+      find_tx x c = Some (h, p) -> exists b, nth_error c h = Some b /\ index_of x (b_ids b) = Some p.
+  Proof.
+    intros x c. induction c as [|b c IH]; intros h p H; [discriminate H|].
+    cbn [find_tx] in H. destruct (index_of x (b_ids b)) as [q|] eqn:Hq.
+    - injection H as <- <-. exists b. split; [reflexivity | exact Hq].
+    - destruct (find_tx x c) as [[h' p']|] eqn:Hf; [|discriminate H]. cbn [option_map fst snd] in H.
+      injection H as <- <-. destruct (IH h' p' eq_refl) as (b' & A & B). exists b'. split; assumption.
+  Qed.
+
+  (* ---------- the chain built from raw blocks ---------- *)
+  Definition block_ok (b : block) : Prop :=
+    b_ids b = map (sha256d sha256) (b_sers b) /\ b_ids b <> [] /\
+    h_root (b_hdr b) = merkle_root sha256 (b_ids b) /\ len32 (h_prev (b_hdr b)).
+
+  Lemma build_spec : forall rs prev,
+      len32 prev -> Forall (fun rb => rb_txs rb <> []) rs ->
+      (forall k b, nth_error (build sha256 prev rs) k = Some b -> block_ok b) /\
+      (forall k a b, nth_error (build sha256 prev rs) k = Some a ->
+                     nth_error (build sha256 prev rs) (S k) = Some b ->
+                     h_prev (b_hdr b) = sha256d sha256 (ser_header (b_hdr a))).
+  Proof.
+    induction rs as [|rb rs IH]; intros prev Hprev HF.
+    - split; intros k; destruct k; discriminate.
+    - inversion HF as [|rb' rs' Hne HF']; subst.
+      cbn [build].
+      set (hd := {| h_version := rb_version rb; h_prev := prev;
+                    h_root := merkle_root sha256 (map (sha256d sha256) (rb_txs rb));
+                    h_time := rb_time rb; h_bits := rb_bits rb; h_nonce := rb_nonce rb |}).
+      assert (Hnext : len32 (sha256d sha256 (ser_header hd))) by (unfold len32, sha256d; apply Hsha).
+      destruct (IH _ Hnext HF') as [IH1 IH2].
+      split.
+      + intros k b Hk. destruct k as [|k]; [|eapply IH1; exact Hk].
+        cbn [nth_error] in Hk. injection Hk as <-. unfold block_ok. cbn [b_ids b_sers b_hdr h_root h_prev].
+        repeat split; try exact Hprev.
+        destruct (rb_txs rb); [contradiction | discriminate].
+      + intros k a b Ha Hb. destruct k as [|k]; [|eapply IH2; [exact Ha | exact Hb]].
+        cbn [nth_error] in Ha, Hb. injection Ha as <-. cbn [b_hdr].
+        destruct rs as [|rb2 rs]; [discriminate Hb|]. cbn [build nth_error] in Hb. injection Hb as <-.
+        reflexivity.
+  Qed.
+
+  Lemma build_length : forall rs prev, length (build sha256 prev rs) = length rs.
+  Proof. induction rs as [|rb rs IH]; intros pv; [reflexivity|]. cbn [build length]. f_equal. apply IH. Qed.
+
+  Section Oracle.
+    Variable prev0 : bytes.
+    Variable raws : list raw_block.
+    Variable vis : nat -> nat.
+    Hypothesis Hprev0 : len32 prev0.
+    Hypothesis Hraws : Forall (fun rb => rb_txs rb <> []) raws.
+    Hypothesis Hshort : (Z.of_nat (length raws) < 2 ^ 63)%Z.
+
+    Let chain := build sha256 prev0 raws.
+
+    Lemma chain_length : length chain = length raws.
+    Proof. apply build_length. Qed.
+
+    Lemma block_at_spec : forall t i b,
+        block_at chain vis t i = Some b ->
+        (0 <= i < 2 ^ 63)%Z /\ nth_error chain (Z.to_nat i) = Some b.
+    Proof.
+      intros t i b H. unfold block_at in H. destruct (i <? 0)%Z eqn:E; [discriminate H|].
+      apply Z.ltb_ge in E. unfold view in H. apply nth_error_firstn_some in H.
+      split; [|exact H].
+      assert (Z.to_nat i < length chain)%nat by (apply nth_error_Some; rewrite H; discriminate).
+      rewrite chain_length in *. lia.
+    Qed.
+
+    Definition depth_of (i : Z) : nat :=
+      match nth_error chain (Z.to_nat i) with
+      | Some b => length (branch sha256 0 (b_ids b))
+      | None => 0
+      end.
+
+    Lemma ids_len32 : forall b, block_ok b -> Forall len32 (b_ids b).
+    Proof.
+      intros b (Hids & _). rewrite Hids. apply Forall_forall. intros y Hy.
+      apply in_map_iff in Hy. destruct Hy as (s & <- & _). unfold len32, sha256d. apply Hsha.
+    Qed.
+
+    Theorem honest_oracle_ok :
+      oracle_assumptions sha256 (hq_tx chain vis) (hq_header chain vis) (hq_merkle sha256 chain vis)
+                         (hq_cb chain vis) depth_of.
+    Proof.
+      destruct (build_spec raws prev0 Hprev0 Hraws) as [Bok Blink]. fold chain in Bok, Blink.
+      unfold oracle_assumptions. repeat split.
+      - (* lengths, prev *)
+        unfold hq_header in H. destruct (block_at chain vis t i) as [b|] eqn:Hb; [|discriminate H].
+        cbn [option_map] in H. injection H as <-. destruct (block_at_spec _ _ _ Hb) as [_ Hn].
+        destruct (Bok _ _ Hn) as (_ & _ & _ & P). exact P.
+      - (* lengths, root *)
+        unfold hq_header in H. destruct (block_at chain vis t i) as [b|] eqn:Hb; [|discriminate H].
+        cbn [option_map] in H. injection H as <-. destruct (block_at_spec _ _ _ Hb) as [_ Hn].
+        pose proof (Bok _ _ Hn) as Hok. destruct Hok as (Hids & Hne & Hroot & _).
+        rewrite Hroot. apply root_f_len32; [apply ids_len32; exact (Bok _ _ Hn) | exact Hne | lia].
+      - (* linkage *)
+        intros t t' i a b Ha Hb. unfold hq_header in Ha, Hb.
+        destruct (block_at chain vis t i) as [ba|] eqn:Hba; [|discriminate Ha].
+        destruct (block_at chain vis t' (i + 1)) as [bb|] eqn:Hbb; [|discriminate Hb].
+        cbn [option_map] in Ha, Hb. injection Ha as <-. injection Hb as <-.
+        destruct (block_at_spec _ _ _ Hba) as [Hi Hna]. destruct (block_at_spec _ _ _ Hbb) as [_ Hnb].
+        replace (Z.to_nat (i + 1)) with (S (Z.to_nat i)) in Hnb by lia.
+        exact (Blink _ _ _ Hna Hnb).
+      - (* merkle branches *)
+        intros t t' x i br hd Hm Hh. unfold hq_merkle in Hm. unfold hq_header in Hh.
+        destruct (block_at chain vis t i) as [b|] eqn:Hb; [|discriminate Hm].
+        destruct (block_at chain vis t' i) as [b'|] eqn:Hb'; [|discriminate Hh].
+        cbn [option_map] in Hh. injection Hh as <-.
+        destruct (block_at_spec _ _ _ Hb) as [Hi Hn]. destruct (block_at_spec _ _ _ Hb') as [_ Hn'].
+        rewrite Hn in Hn'. injection Hn' as <-.
+        destruct (index_of x (b_ids b)) as [p|] eqn:Hp; [|discriminate Hm]. injection Hm as <-.
+        destruct (index_of_spec _ _ _ Hp) as (Hlt & Hnth & _).
+        pose proof (Bok _ _ Hn) as Hok. pose proof (ids_len32 b Hok) as Hids32.
+        destruct Hok as (_ & _ & Hroot & _).
+        exists (branch sha256 p (b_ids b)). cbn [mb_nodes mb_pos].
+        split; [reflexivity|]. split; [apply branch_f_len32; assumption|].
+        split; [unfold depth_of; rewrite Hn; apply branch_f_length|].
+        split; [lia|].
+        rewrite Hroot. rewrite <- Hnth at 1. apply branch_fold; [exact Hlt | lia].
+      - unfold hq_merkle in H. destruct (block_at chain vis t i) as [b|] eqn:Hb; [|discriminate H].
+        destruct (block_at_spec _ _ _ Hb) as [Hi _]. lia.
+      - unfold hq_merkle in H. destruct (block_at chain vis t i) as [b|] eqn:Hb; [|discriminate H].
+        destruct (block_at_spec _ _ _ Hb) as [Hi _]. lia.
+      - (* coinbase position *)
+        intros t t' i c br Hc Hm. unfold hq_cb in Hc. unfold hq_merkle in Hm.
+        destruct (block_at chain vis t i) as [b|] eqn:Hb; [|discriminate Hc].
+        destruct (block_at chain vis t' i) as [b'|] eqn:Hb'; [|discriminate Hm].
+        destruct (block_at_spec _ _ _ Hb) as [_ Hn]. destruct (block_at_spec _ _ _ Hb') as [_ Hn'].
+        rewrite Hn in Hn'. injection Hn' as <-.
+        destruct (index_of c (b_ids b)) as [p|] eqn:Hp; [|discriminate Hm]. injection Hm as <-.
+        cbn [mb_pos]. rewrite (index_of_head _ _ _ Hc Hp). reflexivity.
+      - (* GetTransaction *)
+        intros t c ser H. unfold hq_tx in H.
+        destruct (find_tx c (view chain vis t)) as [[h p]|] eqn:Hf; [|discriminate H].
+        destruct (find_tx_spec _ _ _ _ Hf) as (b & Hnb & Hidx).
+        rewrite Hnb in H. unfold view in Hnb. apply nth_error_firstn_some in Hnb.
+        destruct (Bok _ _ Hnb) as (Hids & _).
+        destruct (index_of_spec _ _ _ Hidx) as (_ & _ & Hne).
+        rewrite Hids in Hne. rewrite nth_error_map, H in Hne. cbn [option_map] in Hne.
+        injection Hne as ->. reflexivity.
+    Qed.
+
+    (* every proof assembled against the honest server, for ANY visibility schedule (in
+       particular for every way the chain grows between the queries), is accepted and starts
+       at the block that contains the transaction at the stated position *)
+    Theorem honest_assemble_sound : forall t0 x required p,
+        (1 <= required < 2 ^ 63)%Z ->
+        honest_assemble sha256 chain vis t0 x required = Assembled p ->
+        verify sha256 x required p = true /\
+        exists (i : Z) (b : block) (rest : bytes),
+          nth_error chain (Z.to_nat i) = Some b /\ (0 <= i)%Z /\
+          nth_error (b_ids b) (Z.to_nat (p_index p)) = Some x /\
+          p_headers p = ser_header (b_hdr b) ++ rest.
+    Proof.
+      intros t0 x required p Hreq H.
+      destruct (assemble_sound sha256 _ _ _ _ _ _ depth_of t0 x required p honest_oracle_ok Hreq H)
+        as [Hv (i & hds & Hn & Hbs & Hq & (t & br & Hm & Hidx))].
+      split; [exact Hv|].
+      unfold hq_merkle in Hm. destruct (block_at chain vis t i) as [b|] eqn:Hb; [|discriminate Hm].
+      destruct (block_at_spec _ _ _ Hb) as [Hi Hnb].
+      destruct (index_of x (b_ids b)) as [pos|] eqn:Hp; [|discriminate Hm]. injection Hm as <-.
+      cbn [mb_pos] in Hidx. destruct (index_of_spec _ _ _ Hp) as (_ & _ & Hne).
+      destruct hds as [|hd0 hds']; [cbn [length] in Hn; lia|].
+      destruct (Hq 0%nat hd0 eq_refl) as [t' Hq0]. rewrite Z.add_0_r in Hq0.
+      unfold hq_header in Hq0. destruct (block_at chain vis t' i) as [b'|] eqn:Hb'; [|discriminate Hq0].
+      cbn [option_map] in Hq0. injection Hq0 as <-.
+      destruct (block_at_spec _ _ _ Hb') as [_ Hnb']. rewrite Hnb in Hnb'. injection Hnb' as <-.
+      exists i, b, (concat (map ser_header hds')).
+      split; [exact Hnb|]. split; [lia|]. split; [rewrite Hidx, Nat2Z.id; exact Hne|].
+      rewrite Hbs. reflexivity.
+    Qed.
+  End Oracle.
+End HonestProofs.
+
+(* ---------- the hypotheses are satisfiable and assembly does succeed ---------- *)
+Example example_case : case :=
+  {| c_sizes := [1; 3; 4; 7; 2; 1; 5; 6; 2; 2]%N; c_vis0 := 8%N; c_growth := [0; 0; 0; 1]%N;
+     c_tx := Some (3, 6)%N; c_required := 4%Z;
+     c_obs := OAssembled 96 6 320 96; c_go_verify := true |}.
+Example example_assembles :
+  Concrete.explain example_case = (OAssembled 96 6 320 96, true) /\ Concrete.judge example_case = Agree.
+Proof. vm_compute. split; reflexivity. Qed.
+
+(* ---------- the executable verifier means what it says ---------- *)
+Fixpoint linked_prop (sha256 : bytes -> bytes) (hs : list bytes) : Prop :=
+  match hs with
+  | a :: (b :: _) as t => hdr_prev b = sha256d sha256 a /\ linked_prop sha256 t
+  | _ => True
+  end.
+
+Lemma linked_sound : forall sha256 hs, linked sha256 hs = true -> linked_prop sha256 hs.
+Proof.
+  intros sha256 hs. induction hs as [|a hs IH]; intros H; [exact I|].
+  destruct hs as [|b hs]; [exact I|]. cbn [linked] in H. apply andb_true_iff in H. destruct H as [H1 H2].
+  cbn [linked_prop]. split; [apply bytes_eqb_eq; exact H1 | apply IH; exact H2].
+Qed.
+
+Lemma merkle_ok_sound : forall sha256 leaf pb idx root,
+    merkle_ok sha256 leaf pb idx root = true ->
+    (0 <= idx)%Z /\ merkle_fold sha256 leaf (chunks 32 pb) idx = (root, 0%Z).
+Proof.
+  intros sha256 leaf pb idx root H. unfold merkle_ok in H.
+  apply andb_true_iff in H. destruct H as [H H3]. apply andb_true_iff in H. destruct H as [_ H2].
+  apply Z.leb_le in H2. split; [exact H2|].
+  destruct (merkle_fold sha256 leaf (chunks 32 pb) idx) as [r rest].
+  apply andb_true_iff in H3. destruct H3 as [A B]. apply bytes_eqb_eq in A. apply Z.eqb_eq in B.
+  subst. reflexivity.
+Qed.
+
+Theorem verify_sound : forall sha256 x required p,
+    verify sha256 x required p = true ->
+    (1 <= required)%Z /\ Z.of_nat (length (p_headers p)) = (80 * required)%Z /\
+    exists h0 rest,
+      chunks 80 (p_headers p) = h0 :: rest /\
+      (0 <= p_index p)%Z /\
+      merkle_fold sha256 x (chunks 32 (p_merkle p)) (p_index p) = (hdr_root h0, 0%Z) /\
+      merkle_fold sha256 (sha256 (p_cb_preimage p)) (chunks 32 (p_cb_proof p)) 0 = (hdr_root h0, 0%Z) /\
+      length (p_merkle p) = length (p_cb_proof p) /\
+      linked_prop sha256 (h0 :: rest).
+Proof.
+  intros sha256 x required p H. unfold verify in H.
+  apply andb_true_iff in H. destruct H as [H H3]. apply andb_true_iff in H. destruct H as [H1 H2].
+  apply Z.leb_le in H1. apply Z.eqb_eq in H2. split; [exact H1|]. split; [exact H2|].
+  destruct (chunks 80 (p_headers p)) as [|h0 rest]; [discriminate H3|].
+  exists h0, rest. split; [reflexivity|].
+  apply andb_true_iff in H3. destruct H3 as [H3 L]. apply andb_true_iff in H3. destruct H3 as [H3 E].
+  apply andb_true_iff in H3. destruct H3 as [M1 M2].
+  destruct (merkle_ok_sound _ _ _ _ _ M1) as [P1 F1]. destruct (merkle_ok_sound _ _ _ _ _ M2) as [_ F2].
+  apply Nat.eqb_eq in E. apply linked_sound in L. repeat split; assumption.
+Qed.
+
+(* ---------- every proof the judge's model produces passes the model's verifier ---------- *)
+Lemma toy_len : forall b, length (Concrete.toy b) = 32%nat.
+Proof.
+  intros b. unfold Concrete.toy. rewrite firstn_length, app_length, repeat_length. lia.
+Qed.
+
+Lemma raws_ok : forall sizes h,
+    forallb (fun s => (1 <=? s)%N && (s <=? 200)%N) sizes = true ->
+    Forall (fun rb => rb_txs rb <> []) (Concrete.raws h sizes) /\
+    length (Concrete.raws h sizes) = length sizes.
+Proof.
+  induction sizes as [|s r IH]; intros h H; [split; [constructor | reflexivity]|].
+  cbn [forallb] in H. apply andb_true_iff in H. destruct H as [Hs Hr].
+  apply andb_true_iff in Hs. destruct Hs as [Hs _]. apply N.leb_le in Hs.
+  destruct (IH (S h) Hr) as [A B]. cbn [Concrete.raws length]. split; [|f_equal; exact B].
+  constructor; [|exact A]. unfold Concrete.raw. cbn [rb_txs].
+  destruct (N.to_nat s) as [|k] eqn:E; [lia|]. cbn [seq map]. discriminate.
+Qed.
+
+Theorem concrete_run_verifies : forall c p,
+    Concrete.well_formed c = true -> (1 <= c_required c)%Z ->
+    Concrete.run c = Assembled p ->
+    verify Concrete.toy (Concrete.txid_of c) (c_required c) p = true.
+Proof.
+  intros c p W Hreq H. unfold Concrete.well_formed in W.
+  repeat (apply andb_true_iff in W; destruct W as [W ?]).
+  destruct (raws_ok (c_sizes c) 0 W) as [A B].
+  match goal with Hn : (N.of_nat (length (c_sizes c)) <? 100000)%N = true |- _ => apply N.ltb_lt in Hn end.
+  match goal with Hr : (c_required c <? 1000)%Z = true |- _ => apply Z.ltb_lt in Hr end.
+  unfold Concrete.run, Concrete.chain_of in H.
+  refine (proj1 (honest_assemble_sound Concrete.toy toy_len (repeat 0%N 32) (Concrete.raws 0 (c_sizes c)) _
+                   (repeat_length _ _) A _ 0%nat _ _ p _ H)); [rewrite B; lia | lia].
+Qed.
